@@ -25,19 +25,19 @@ CLAIMS = {
          "context, range, variable and body, by induction on the element list with a proved context-weakening lemma; plus the "
          "forallb/existsb/filter/map corollaries for pure bodies. The expansions are tied to antlr/src/macros.rs and the evaluator "
          "to objects.rs by running every macro form over all lists of length 0-4 from a 4-value alphabet with raising and logging "
-         "bodies, maps and nested macros, and by comparing the expansion itself with the real parser."),
+         "bodies, maps (keys of all four kinds, uints beyond the int range included) and nested macros, and by comparing the expansion itself with the real parser."),
  "C11": ("Theorems on the scope-chain model of Context: a lookup returns the binding of the innermost scope that defines the "
          "name (latest definition within a scope), fails iff no scope defines it; for every sequence of define/open/drop/lookup "
          "operations the parent scopes below the open inner levels are unchanged; variables and functions are separate name spaces; "
          "inside a macro body the iteration variable is the current element and every other name resolves as outside; a lookup after "
          "a macro is the lookup in the original context. Tied to context.rs/objects.rs by exhaustive operation sequences (length <= 5 "
-         "quick, <= 7 thorough) against the real Context API and by nested-macro programs reusing variable and function names."),
+         "quick, <= 7 thorough; every third binding is null) against the real Context API and by nested-macro programs reusing variable and function names."),
  "C14": ("Theorems: list indexing returns the element in range and null otherwise (negative, past the end, i64 extremes), never an "
          "error; a map literal with pairwise distinct keys denotes exactly its entries; k in m, m.contains(k), m[k] all answer the one "
          "predicate present(k, m) that identifies numerically equal int/uint keys, and for identifier-like string keys so do has(m.k) "
          "and m.k (key texts of non-string keys can never equal an identifier - proved from the decimal printer); size is additive over "
          "+, concatenation preserves order, x in l iff some element equals x. Tied to objects.rs/functions.rs by all maps with <= 3 keys "
-         "over a mixed 8-key alphabet x 18 query keys x 5 forms (also evaluated as an agreement law on the implementation's own answers), "
+         "over a mixed 8-key alphabet x 18 query keys x 5 forms, then over keys at both ends of the two integer ranges and keys spelled like built-in functions with stored values 0 / false / '' / [] / 0u (also evaluated as an agreement law on the implementation's own answers), "
          "all short lists x all indices, byte-offset string indexing and random additive-law cases."),
  "C01": ("PARTIAL. A Gallina lexer (maximal munch over the token rules of CEL.g4), literal decoders and a fuelled recursive-descent parser "
          "with the visitor's checks and macro expansion form compile : source -> program | reject | out-of-fuel. Proved: the parser's fuel 16*(tokens+2) suffices on EVERY token list "
@@ -158,7 +158,7 @@ CLAIMS = {
  "C05": ("PARTIAL. (a) The evaluator model is a function of (context, program) returning no context, so purity is checked on the implementation: "
          "histories (one context, up to 50 executions) and thread runs (2-16 threads sharing one program set and one root context by reference, each in its own "
          "inner scope) are answered execution by execution by the history-free model, and the harness checks that every context variable, the program and "
-         "every earlier result are unchanged after each execution, that repetition and an equal fresh context give equal results, and that no context-held "
+         "every earlier result are unchanged after each execution, that repetition, an equal fresh context and a thread that has executed nothing yet (the program compiled again) give equal results, and that no context-held "
          "buffer gained or lost an owner; Program/Context/Value are asserted Send+Sync at compile time. Theorems: outcome and host-call log depend on the "
          "context only through its function registry and the lookups of the identifiers occurring in the program (frame); equal contexts, an inner scope and "
          "a private unreferenced variable change nothing. (b) Heap model of the Arc discipline behind list/string + (owner counts, clone on lookup, "
@@ -171,7 +171,7 @@ CLAIMS = {
          "and host-call log alone when && / || are decided by it, evaluates exactly one branch of ?:, and propagates a "
          "left error - for every context and operand expression, hence at every depth and inside macro bodies. Tied to the "
          "code by comparing outcome and ordered host-call log on all small operator trees over raising/logging leaves and "
-         "random deeper ones."),
+         "random deeper ones, calls of unregistered functions among the leaves, and flat chains of 2-40 operands with the deciding operand at every kind of position."),
 }
 NOT_YET = "not claimed yet: model and check under construction (see DESIGN.md staging plan); the technique applies"
 
